@@ -30,13 +30,16 @@
 
 using namespace vl;
 static const long long DEN = 4;
+// the specification's NegZero (PersistFmt.tla): IEEE -0; binary modes are bit-identical, text modes compared by value
+static const long long NEGZERO = 999999937;
+template<class DT> DT val_of(long long num) { return num == NEGZERO ? DT(-0.0) : DT(double(num) / double(DEN)); }
 typedef std::vector<char> Bytes;
 
 // ---- builders (as in c05_persist.cpp: values = numerator / den) -------------------------------------------------
 template<class DT, class IT> DenseVector<DT, IT> dvec(const IVec& num)
 {
   DenseVector<DT, IT> r(Index(num.size()));
-  for(std::size_t k = 0; k < num.size(); ++k) r(Index(k), DT(double(num[k]) / double(DEN)));
+  for(std::size_t k = 0; k < num.size(); ++k) r(Index(k), val_of<DT>(num[k]));
   return r;
 }
 static bool is_alloc(const vj::Value& c) { return c.has("alloc") && c["alloc"].as_bool(); }
@@ -51,7 +54,7 @@ template<class DT, class IT, int BS> struct Ops<DenseVectorBlocked<DT, IT, BS>>
   {
     IVec num = c["rep"]["va"].ints(); DenseVectorBlocked<DT, IT, BS> r(Index(num.size() / BS));
     DT* e = r.template elements<Perspective::pod>();
-    for(std::size_t k = 0; k < num.size(); ++k) e[k] = DT(double(num[k]) / double(DEN));
+    for(std::size_t k = 0; k < num.size(); ++k) e[k] = val_of<DT>(num[k]);
     return r;
   }
 };
@@ -81,6 +84,7 @@ template<class DT, class IT> struct Ops<SparseMatrixCSR<DT, IT>>
 
 static long long to_num(double x, bool& exact)
 {
+  if(x == 0.0 && std::signbit(x)) return NEGZERO;       // bit-level view (raw arrays)
   double t = x * double(DEN); long long q = (long long)std::llround(t);
   if(double(q) != t || !(std::fabs(t) < 1e15)) { exact = false; return 987654321; }
   return q;
@@ -96,6 +100,7 @@ template<class CT> vj::Value state_of(const CT& c, bool& exact)
   r["el"] = el; r["ix"] = ix; r["si"] = si;
   return r;
 }
+static long long to_val(double x, bool& exact) { return x == 0.0 ? 0ll : to_num(x, exact); }    // value-level view (text round trips)
 static std::string js(const vj::Value& v) { std::string s = vj::dump(v); if(s.size() > 300) s = s.substr(0, 300) + "..."; return s; }
 
 // ---- the container layout of PersistFmt!BinFile found in a byte range (as in c05_persist.cpp) --------------------
@@ -119,7 +124,8 @@ static std::string check_bin(const vj::Value& f, const char* data, std::size_t s
     for(std::size_t t = 0; t < e.size(); ++t)
     {
       double x; if(sdt == 8) { double d; std::memcpy(&d, data + off + 8 * t, 8); x = d; } else { float d; std::memcpy(&d, data + off + 4 * t, 4); x = double(d); }
-      if(x * double(DEN) != double(e[t])) return tag + ": element array " + std::to_string(a) + "[" + std::to_string(t) + "] at byte " + std::to_string(off + std::size_t(sdt) * t) + " is " + std::to_string(x) + " expected " + std::to_string(double(e[t]) / double(DEN));
+      const bool good = (e[t] == NEGZERO) ? (x == 0.0 && std::signbit(x)) : (x * double(DEN) == double(e[t]) && !(x == 0.0 && std::signbit(x)));
+      if(!good) return tag + ": element array " + std::to_string(a) + "[" + std::to_string(t) + "] at byte " + std::to_string(off + std::size_t(sdt) * t) + " is " + std::to_string(x) + " expected " + std::to_string(double(e[t]) / double(DEN));
     }
   }
   for(std::size_t a = 0; a < f["ix"].size(); ++a)
@@ -170,25 +176,26 @@ static std::string check_text(const vj::Value& f, const std::string& text, const
     IVec ei = ls[q]["i"].ints(), ex = ls[q]["x"].ints();
     if(tok.size() != ei.size() + ex.size()) return tag + ": line " + std::to_string(p + q) + " '" + lines[p + q] + "' has " + std::to_string(tok.size()) + " tokens, expected " + std::to_string(ei.size() + ex.size());
     for(std::size_t j = 0; j < ei.size(); ++j) { char* end = nullptr; long long v = std::strtoll(tok[j].c_str(), &end, 10); if(*end != 0 || v != ei[j]) return tag + ": line " + std::to_string(p + q) + " '" + lines[p + q] + "': integer token " + std::to_string(j) + " expected " + std::to_string(ei[j]); }
-    for(std::size_t j = 0; j < ex.size(); ++j) { char* end = nullptr; double v = std::strtod(tok[ei.size() + j].c_str(), &end); if(*end != 0 || v * double(DEN) != double(ex[j])) return tag + ": line " + std::to_string(p + q) + " '" + lines[p + q] + "': value token expected " + std::to_string(double(ex[j]) / double(DEN)); }
+    for(std::size_t j = 0; j < ex.size(); ++j) { char* end = nullptr; double v = std::strtod(tok[ei.size() + j].c_str(), &end); if(*end != 0 || tok[ei.size() + j].empty() || v * double(DEN) != double(ex[j] == NEGZERO ? 0 : ex[j])) return tag + ": line " + std::to_string(p + q) + " '" + lines[p + q] + "': value token expected " + std::to_string(double(ex[j]) / double(DEN)); }
   }
   return "";
 }
 template<class DT, class IT> vj::Value view_of(const DenseVector<DT, IT>& v, bool& ex)
-{ vj::Value r = vj::Value::object(); r["m"] = vj::Value((long long)v.size()); vj::Value a = vj::Value::array(); for(Index i = 0; i < v.size(); ++i) a.push(vj::Value(to_num(double(v(i)), ex))); r["va"] = a; return r; }
+{ vj::Value r = vj::Value::object(); r["m"] = vj::Value((long long)v.size()); vj::Value a = vj::Value::array(); for(Index i = 0; i < v.size(); ++i) a.push(vj::Value(to_val(double(v(i)), ex))); r["va"] = a; return r; }
 template<class DT, class IT, int BS> vj::Value view_of(const DenseVectorBlocked<DT, IT, BS>& v, bool& ex)
 {
   vj::Value r = vj::Value::object(); r["m"] = vj::Value((long long)v.size()); vj::Value a = vj::Value::array();
   const DT* e = v.template elements<Perspective::pod>(); Index n = v.template size<Perspective::pod>();
   Index have = v.get_elements_size().empty() ? Index(0) : v.get_elements_size()[0];
-  for(Index i = 0; i < have; ++i) a.push(vj::Value(to_num(double(e[i]), ex)));
+  for(Index i = 0; i < have; ++i) a.push(vj::Value(to_val(double(e[i]), ex)));
   if(have != n) ex = false;
   r["va"] = a; return r;
 }
 template<class DT, class IT> vj::Value view_of(const SparseVector<DT, IT>& v, bool& ex)
 {
   vj::Value r = vj::Value::object(); r["m"] = vj::Value((long long)v.size()); vj::Value a = vj::Value::array(), x = vj::Value::array();
-  for(Index i = 0; i < v.used_elements(); ++i) { x.push(vj::Value((long long)v.indices()[i])); a.push(vj::Value(to_num(double(v.elements()[i]), ex))); }
+  for(Index i = 0; i < v.used_elements(); ++i) { x.push(vj::Value((long long)v.indices()[i])); a.push(vj::Value(to_val(double(v.elements()[i]), ex))); }
+  r["used"] = vj::Value((long long)v.used_elements());
   r["idx"] = x; r["va"] = a; return r;
 }
 template<class DT, class IT> vj::Value view_of(const SparseMatrixCSR<DT, IT>& v, bool& ex)
@@ -197,17 +204,34 @@ template<class DT, class IT> vj::Value view_of(const SparseMatrixCSR<DT, IT>& v,
   vj::Value rep = vj::Value::object(), rp = vj::Value::array(), ci = vj::Value::array(), va = vj::Value::array();
   if(v.row_ptr() != nullptr) for(Index i = 0; i <= v.rows(); ++i) rp.push(vj::Value((long long)v.row_ptr()[i]));
   else for(Index i = 0; i <= v.rows(); ++i) rp.push(vj::Value(0ll));
-  for(Index i = 0; i < v.used_elements(); ++i) { ci.push(vj::Value((long long)v.col_ind()[i])); va.push(vj::Value(to_num(double(v.val()[i]), ex))); }
+  for(Index i = 0; i < v.used_elements(); ++i) { ci.push(vj::Value((long long)v.col_ind()[i])); va.push(vj::Value(to_val(double(v.val()[i]), ex))); }
+  r["used"] = vj::Value((long long)v.used_elements());
   rep["rp"] = rp; rep["ci"] = ci; rep["va"] = va; r["rep"] = rep; return r;
 }
 static FileMode file_mode(const std::string& m)
 {
-  if(m == "exp") return FileMode::fm_exp; if(m == "mtx") return FileMode::fm_mtx; if(m == "dv") return FileMode::fm_dv;
+  if(m == "exp") return FileMode::fm_exp; if(m == "mtx" || m == "mtxsym") return FileMode::fm_mtx; if(m == "dv") return FileMode::fm_dv;
   if(m == "dvb") return FileMode::fm_dvb; if(m == "sv") return FileMode::fm_sv; if(m == "csr") return FileMode::fm_csr;
   if(m == "binary") return FileMode::fm_binary;
   throw std::runtime_error("unknown mode " + m);
 }
 static bool slurp(const std::string& path, std::vector<char>& out);
+// mode "mtxsym" = the symmetric MatrixMarket variant write_out(fm_mtx, filename, true) of SparseMatrixCSR
+template<class CT> struct NameWriter
+{
+  static void write(const CT& a, const std::string& mode, const std::string& path)
+  {
+    if(mode == "mtxsym") throw std::runtime_error("symmetric MatrixMarket output exists for SparseMatrixCSR only");
+    a.write_out(file_mode(mode), String(path));
+  }
+};
+template<class DT, class IT> struct NameWriter<SparseMatrixCSR<DT, IT>>
+{
+  static void write(const SparseMatrixCSR<DT, IT>& a, const std::string& mode, const std::string& path)
+  {
+    if(mode == "mtxsym") a.write_out(FileMode::fm_mtx, String(path), true); else a.write_out(file_mode(mode), String(path));
+  }
+};
 // write_out(mode, FILE NAME) / read_from(mode, FILE NAME) of one container
 template<class CT>
 std::string run_iofile(const vj::Value& c, const std::string& dir, const std::string& tag)
@@ -217,7 +241,7 @@ std::string run_iofile(const vj::Value& c, const std::string& dir, const std::st
   CT a = Ops<CT>::build(c);
   bool ex = true; vj::Value pre = state_of(a, ex);
   if(!ex || pre != c["arrays"]) return "precond: " + tag + ": container state " + js(pre) + " is not the state the specification assumes " + js(c["arrays"]);
-  a.write_out(file_mode(mode), String(path));
+  NameWriter<CT>::write(a, mode, path);
   { bool e2 = true; if(state_of(a, e2) != pre) return tag + ": writing modified the container"; }
   std::vector<char> bytes; if(!slurp(path, bytes)) return tag + "/write: file " + path + " does not exist";
   const bool bin = f["fmt"].as_str() == "bin";
